@@ -210,7 +210,9 @@ fn payload_string(p: Box<dyn std::any::Any + Send>) -> String {
 /// engine from inside the descriptor
 fn set_desc(m: &mut DescriptorManager, kind: DKind, name: &str, id: usize) {
     fn mark(id: usize, parts: String) -> String {
-        if id >= REENTRANT_DESC {
+        if id >= EMPTY_DESC {
+            String::new()
+        } else if id >= REENTRANT_DESC {
             let inner = match parse_expression("inner_q") {
                 Ok(a) => a.describe(),
                 Err(e) => format!("ERR {}", e),
